@@ -326,3 +326,6 @@ func vh_C14_validators_Q() {
 	symxAssertionsOff()
 	vhC10Link(1, 1, 2, true)
 }
+
+// thorough tier
+func vh_C10_link_T() { vhC10Link(2, 2, 3, false) }
